@@ -383,6 +383,65 @@ def run_subprocess(ctx, n):
     ctx.run_hypothesis(cases(), check, n)
 
 
+def grid_cases():
+    """The complete product of stored type x encoding x dataset type x
+    downscaling method x sharding x value mapping, the remaining options
+    rotating, on one volume with a long axis (two or three scales)."""
+    out = []
+    k = 0
+    mappings = [(None, None, False), ([1.0, 100.0], None, True),
+                ([2.0, 1.0], None, False), (None, [0.0, 100.0], False),
+                ([1.0, -16.0], None, False)]
+    for stored in ("uint8", "int16", "uint16", "float32", "uint32", "uint64"):
+        for enc in (None, "raw", "compressed_segmentation"):
+            if enc == "compressed_segmentation" and stored in (
+                    "int16", "float32"):
+                continue
+            if stored == "uint64" and enc != "compressed_segmentation":
+                continue
+            for typ in (None, "image", "segmentation"):
+                for method in (None, "average", "majority", "stride"):
+                    for sharded in (False, True):
+                        for scaling, mm, ign in mappings:
+                            if enc == "compressed_segmentation" and (
+                                    scaling or mm):
+                                continue
+                            k += 1
+                            shape = [2, 3, 2]
+                            shape[k % 3] = 130
+                            out.append({
+                                "shape": shape, "channels": 1 + (k % 5 == 0),
+                                "voxel_sizes": [1, 1, 1], "stored": stored,
+                                "scaling": scaling, "type": typ,
+                                "encoding": enc, "method": method,
+                                "outside": (None, 0, 100)[k % 3],
+                                "gzip": k % 2 == 0, "flat": k % 4 < 2,
+                                "minmax": mm, "ignore_scaling": ign,
+                                "mmap": k % 3 == 0,
+                                "sharding": "%d,%d,%d" % (k % 2, 1 + k % 2,
+                                                          k % 3)
+                                if sharded else None,
+                                "repeat": (None, "v2p", "compute",
+                                           "both")[k % 4],
+                                "spelling": "plain",
+                                "convert": (None, "raw", None,
+                                            "compressed_segmentation")[k % 4],
+                                "stats": k % 2 == 1, "seed": k})
+    return out
+
+
+def run_grid(ctx, n):
+    def check(ctx, case):
+        nscales = check_case(ctx, case)
+        if nscales is None:
+            return
+        ctx.record(case, nscales >= 2, [
+            "stored." + case["stored"], "enc." + str(case["encoding"]),
+            "type." + str(case["type"]), "method." + str(case["method"]),
+            "sharded" if case["sharding"] else "unsharded"])
+    ctx.run_grid(grid_cases(), check)
+
+
 def replay(ctx, case):
     check_case(ctx, case)
 
@@ -391,4 +450,6 @@ SUBS = [
     Sub("programs", run, replay, quick=150, thorough=15000, min_per_shard=5),
     Sub("subprocess", run_subprocess, replay, quick=12, thorough=600,
         shards=6, min_per_shard=2),
+    Sub("option_grid", run_grid, replay, quick=1, thorough=1, shards=14,
+        sweep=True),
 ]
